@@ -136,18 +136,16 @@ def rule_r1(prog, res) -> None:
         m = prog.func(f"{cname}.normalised")
         res.touch(m)
         found = False
-        for conds, env, ret in _paths(m.node, rename=lambda t: "DZ" if t in ("self.binning.dz", "dz") else t):
-            if ret is None:
+        tparam = next((q for q in m.param_names() if "target" in q), None)
+        # without a target distribution (the fit to a target is a relative normalisation, not this formula)
+        npaths = [p for p in symx.explore(prog, m, env={tparam: None, "on_root()": True} if tparam else {"on_root()": True}, inline=symx.inline_private_helpers(prog), skip_tests=("logger",)) if p.outcome == "return" and p.value is not None]
+        for p_ in npaths:
+            ret = p_.node or m.node
+            c = [x for x in ast.walk(p_.value) if isinstance(x, ast.Call) and len(x.args) >= 3]
+            if not c:
                 continue
-            if any("target" in t and not pol for t, pol in conds):
-                continue  # fit to a target distribution: relative normalisation, not this formula
-            c = [x for x in ast.walk(ret) if isinstance(x, ast.Call)]
-            if not c or len(c[0].args) < 3:
-                continue
-            from ..norm import _poly_env as PE
-
             ren = lambda t: "DZ" if t in ("self.binning.dz", "dz") else t  # noqa: E731
-            d, s = PE(c[0].args[1], env, ren), PE(c[0].args[2], env, ren)
+            d, s = poly(c[0].args[1], None, ren), poly(c[0].args[2], None, ren)
             found = True
             for which, val, atom in (("value", d, "self.data"), ("samples", s, "self.samples")):
                 # val must be X / nansum[DZ * X_data] with X built from `atom`
@@ -171,19 +169,16 @@ def rule_r1(prog, res) -> None:
     # NormalisedCounts.sample_patch_sum = counts / sum_weights
     sp = prog.func("NormalisedCounts.sample_patch_sum")
     res.touch(sp)
-    ok = False
-    for conds, env, ret in _paths(sp.node):
-        if ret is None:
+    ok = src_ok = False
+    spaths = [p for p in symx.explore(prog, sp, inline=symx.inline_private_helpers(prog, public={"sample_patch_sum"})) if p.outcome == "return" and p.value is not None]
+    for p_ in spaths:
+        c = [x for x in ast.walk(p_.value) if isinstance(x, ast.Call) and len(x.args) >= 3]
+        if not c:
             continue
-        c = [x for x in ast.walk(ret) if isinstance(x, ast.Call)][0]
-        from ..norm import _poly_env as PE
-
-        d, s = PE(c.args[1], env, lambda t: t), PE(c.args[2], env, lambda t: t)
-        if d.equals(_R("counts.data / sum_weights.data")) and s.equals(_R("counts.samples / sum_weights.samples")):
-            ok = True
-    cdef = [v for v in all_def_values(sp.node, "counts") if v is not None]
-    wdef = [v for v in all_def_values(sp.node, "sum_weights") if v is not None]
-    src_ok = len(cdef) == 1 and "self.counts.sample_patch_sum" in unparse(cdef[0]) and len(wdef) == 1 and "self.sum_weights.sample_patch_sum" in unparse(wdef[0])
+        C_, W_ = "self.counts.sample_patch_sum()", "self.sum_weights.sample_patch_sum()"
+        d, s_ = poly(c[0].args[1], None, lambda t: t), poly(c[0].args[2], None, lambda t: t)
+        ok = d.equals(Rational(_atom(f"{C_}.data")) / Rational(_atom(f"{W_}.data"))) and s_.equals(Rational(_atom(f"{C_}.samples")) / Rational(_atom(f"{W_}.samples")))
+        src_ok = ok
     if ok and src_ok:
         res.ok("C04.R1", res.site(sp), "normalised counts = resampled pair counts / resampled product of weight sums")
     else:
@@ -389,44 +384,70 @@ def rule_r4(prog, res) -> None:
             res.ok("C04.R4", res.site(ga, "outer product"), "array[b, i, j] = sum_weights1[b, i] * sum_weights2[b, j]")
         else:
             res.violation("C04.R4", ga, first[0], f"outer product is built from {ops}", key_extra="outer-product-operands")
-    autos = [x for x in walk_no_nested(fn) if isinstance(x, ast.If) and any(isinstance(y, ast.Attribute) and y.attr == "auto" for y in ast.walk(x.test))]
-    if len(autos) != 1:
-        raise AnalysisError("C04.R4: `if self.auto` block of get_array not recognised")
-    # the flag may be a numpy.bool_ (it is restored from an HDF5 dataset): the test must be its truth value, not an
-    # identity / equality with the literal True (folded for True, False and a truthy / falsy value that is not a bool)
-    flag_txt = next(unparse(y) for y in ast.walk(autos[0].test) if isinstance(y, ast.Attribute) and y.attr == "auto")
-    try:
-        table = {v: bool(ceval(autos[0].test, {flag_txt: v})) for v in (True, False, 1, 0)}
-    except Unknown as err:
-        raise AnalysisError(f"C04.R4: cannot evaluate the autocorrelation test {unparse(autos[0].test)} ({err})")
-    if table == {True: False, False: True, 1: False, 0: True}:
-        raise AnalysisError("C04.R4: the autocorrelation block is the else-arm of its test (idiom not recognised)")
+    # autocorrelation arm, decided on the symbolic store: the paths that apply triu are taken exactly when the flag is
+    # truthy (folded for True, False and a truthy / falsy value that is not a bool: the flag restored from an HDF5 file
+    # is a numpy.bool_), they return triu(outer product) with the diagonal of that very array halved once in place
+    from .. import symx
+
+    paths = [p for p in symx.explore(prog, ga, inline=symx.inline_private_helpers(prog)) if p.outcome == "return" and p.value is not None]
+    if not paths:
+        raise AnalysisError("C04.R4: get_array has no returning path")
+    flag_txts = sorted({unparse(y) for p in paths for t, _ in p.literals() for y in ast.walk(t) if isinstance(y, ast.Attribute) and y.attr == "auto"})
+    if len(flag_txts) != 1:
+        raise AnalysisError(f"C04.R4: `if self.auto` block of get_array not recognised (flag expressions {flag_txts})")
+    flag_txt = flag_txts[0]
+
+    def taken(p, v) -> bool:
+        for t, pol in p.literals():
+            if flag_txt not in unparse(t):
+                continue
+            try:
+                if bool(ceval(t, {flag_txt: v})) != pol:
+                    return False
+            except Unknown as err:
+                raise AnalysisError(f"C04.R4: cannot evaluate the autocorrelation test {unparse(t)} ({err})") from None
+        return True
+
+    def is_tri(p) -> bool:
+        return any(isinstance(y, ast.Call) and (dotted(y.func) or "").split(".")[-1] in ("triu", "tril") for y in ast.walk(p.value))
+
+    table = {}
+    for v in (True, False, 1, 0):
+        arms = {is_tri(p) for p in paths if taken(p, v)}
+        if len(arms) != 1:
+            raise AnalysisError(f"C04.R4: the autocorrelation arm of get_array is not determined by the flag alone (flag={v!r})")
+        table[v] = arms.pop()
+    tri_paths = [p for p in paths if is_tri(p)]
     if table != {True: True, False: False, 1: True, 0: False}:
+        tests = sorted({unparse(t) for p in tri_paths for t, _ in p.literals() if flag_txt in unparse(t)})
         res.violation(
             "C04.R4",
             ga,
-            autos[0],
-            f"the autocorrelation branch is selected by `{unparse(autos[0].test)}`, which is not the truth value of the flag (it is {table[1]} for a truthy value that is not the object True, e.g. the numpy.bool_ "
-            "read back from a file): the lower triangle is then kept and every pair of patches is normalised twice",
+            (tri_paths[0].node if tri_paths else None) or fn,
+            f"the autocorrelation branch is selected by `{tests[0] if tests else flag_txt}`, which is not the truth value of the flag (triangle applied for {table}; e.g. the numpy.bool_ "
+            "read back from a file is truthy but not the object True): the lower triangle is then kept and every pair of patches is normalised twice",
             key_extra="auto-flag-identity-test",
         )
         return
-    body = autos[0].body
-    tri = [c for st in body for c in ast.walk(st) if isinstance(c, ast.Call) and (dotted(c.func) or "").split(".")[-1] in ("triu", "tril")]
-    half = [st for st in body if isinstance(st, ast.AugAssign) and isinstance(st.op, (ast.Mult, ast.Div))]
-    ok_tri = len(tri) == 1 and (dotted(tri[0].func) or "").endswith("triu") and not tri[0].keywords and len(tri[0].args) == 1
-    ok_half = False
-    if len(half) == 1:
-        v = half[0].value
-        fac = v.value if isinstance(v, ast.Constant) else None
-        if fac is not None:
-            fac = fac if isinstance(half[0].op, ast.Mult) else 1 / fac
-        tgt = unparse(half[0].target).replace(" ", "")
-        ok_half = fac == 0.5 and "bii->bi" in tgt
+    ok_tri = ok_half = bool(tri_paths)
+    for p in tri_paths:
+        v = p.value
+        tri = [y for y in ast.walk(v) if isinstance(y, ast.Call) and (dotted(y.func) or "").split(".")[-1] in ("triu", "tril")]
+        ok_tri = ok_tri and len(tri) == 1 and (dotted(tri[0].func) or "").endswith("triu") and not tri[0].keywords and len(tri[0].args) == 1 and unparse(v) == unparse(tri[0])
+        halves = [ev for ev in p.events if ev.kind == "store" and isinstance(ev.expr, ast.Subscript) and isinstance(ev.value, ast.BinOp) and isinstance(ev.value.op, (ast.Mult, ast.Div)) and "bii->bi" in unparse(ev.expr).replace(" ", "")]
+        good = False
+        if len(halves) == 1:
+            val = halves[0].value
+            fac = val.right.value if isinstance(val.right, ast.Constant) else None
+            if fac is not None:
+                fac = fac if isinstance(val.op, ast.Mult) else 1 / fac
+            view_of = [y for y in ast.walk(halves[0].expr) if isinstance(y, ast.Call) and (dotted(y.func) or "").endswith("einsum") and len(y.args) == 2]
+            good = fac == 0.5 and bool(view_of) and bool(tri) and unparse(view_of[0].args[1]) == unparse(tri[0])
+        ok_half = ok_half and good
     if ok_tri and ok_half:
         res.ok("C04.R4", res.site(ga, "auto"), "upper triangle incl. diagonal, diagonal halved once: sum = 1/2 (sum w)^2 structure")
     else:
-        res.violation("C04.R4", ga, autos[0], f"autocorrelation normalisation is not `upper triangle with the diagonal halved` (triu={ok_tri}, diagonal*0.5={ok_half})", key_extra="auto-normalisation")
+        res.violation("C04.R4", ga, (tri_paths[0].node if tri_paths else None) or fn, f"autocorrelation normalisation is not `upper triangle with the diagonal halved` (triu={ok_tri}, diagonal*0.5={ok_half})", key_extra="auto-normalisation")
 
 
 RULES = [
